@@ -124,7 +124,14 @@ def load_known():
     if not os.path.exists(p):
         return []
     with open(p) as fh:
-        return json.load(fh).get("findings", [])
+        out = list(json.load(fh).get("findings", []))
+    d = os.path.join(VERIF, "known_findings.d")
+    if os.path.isdir(d):
+        for f in sorted(os.listdir(d)):
+            if f.endswith(".json"):
+                with open(os.path.join(d, f)) as fh:
+                    out += json.load(fh).get("findings", [])
+    return out
 
 
 def _match_known(f: Finding, known):
